@@ -207,7 +207,8 @@ Proof.
     specialize (IH s2 beh (S cnt) T2 Hs2).
     destruct (fire f s2 beh (S cnt)) as [[s3 evs'] cnt'] eqn:Ef.
     destruct IH as (SS' & In').
-    change (fire_keys (?e :: evs ++ evs')) with (fire_keys ([e] ++ evs ++ evs')).
+    match goal with |- context [fire_keys (?e :: ?e2 :: evs ++ evs')] =>
+      change (fire_keys (e :: e2 :: evs ++ evs')) with (fire_keys ([e] ++ [e2] ++ evs ++ evs')) end.
     rewrite !fire_keys_app, (no_fire_keys evs N2). simpl.
     change (get s0 i) with (get s i).
     (* every later key is the key of some j in rest, unchanged since s *)
